@@ -146,7 +146,7 @@ Definition Sync (co : list nat) (m : mstate) : Prop :=
 
 Lemma sync_step nr co m l : Sync co m -> Sync co (mstep nr m l).
 Proof.
-  intros [S1 S2]. destruct l as [|i w]; cbn [mstep].
+  intros [S1 S2]. destruct l as [|i w|]; cbn [mstep]; [| |split; auto].
   - destruct (todo m) as [|sp rest] eqn:T; [split; auto; now rewrite T|].
     pose proof (exec_step_consumer nr (st m) sp) as EC.
     destruct (exec_step nr (st m) sp) as [[s' i] c]. simpl in EC. subst i.
@@ -159,7 +159,7 @@ Qed.
 Lemma todo_step_len nr m l :
   length (todo (mstep nr m l)) = length (todo m) - (if is_call l then 1 else 0).
 Proof.
-  destruct l as [|i w]; cbn [mstep is_call].
+  destruct l as [|i w|]; cbn [mstep is_call]; [| |simpl; lia].
   - destruct (todo m) as [|sp rest] eqn:T; [now rewrite T|].
     destruct (exec_step nr (st m) sp) as [[s' i] c]. simpl. lia.
   - destruct (lookup i (hs m)) as [c|]; [destruct (do_write (st m) c w) as [s' r]|]; simpl; lia.
@@ -262,7 +262,7 @@ Lemma ro0_step nr m l :
   0 < length (st m) -> cro (get (st m) 0) = true ->
   0 < length (st (mstep nr m l)) /\ cro (get (st (mstep nr m l)) 0) = true.
 Proof.
-  intros L R. destruct l as [|i w]; cbn [mstep].
+  intros L R. destruct l as [|i w|]; cbn [mstep]; [| |auto].
   - destruct (todo m) as [|sp rest]; [auto|].
     assert (CL : 0 < length (st m ++ [mkCell (cont (get (st m) 0)) false]) /\
                  cro (get (st m ++ [mkCell (cont (get (st m) 0)) false]) 0) = true).
@@ -502,7 +502,7 @@ Definition Reach (i : nat) (m : mstate) : Prop :=
 Lemma reach_step i m l : Reach i m -> Reach i (mstep 0 m l).
 Proof.
   intros [[HL [RO [LEN CL]]]|H].
-  - destruct l as [|j w]; cbn [mstep].
+  - destruct l as [|j w|]; cbn [mstep]; [| |left; cbn [todo st]; auto].
     + destruct (todo m) as [|sp rest] eqn:T; [left; rewrite T; auto|].
       assert (MS : is_mut_step sp = true) by (apply CL; now left).
       assert (CL' : forall sp', In sp' rest -> is_mut_step sp' = true) by (intros; apply CL; now right).
@@ -518,7 +518,7 @@ Proof.
       rewrite length_upd. repeat split; auto.
       destruct (Nat.eq_dec c 0) as [->|N]; [|now rewrite get_upd_other].
       destruct (Nat.lt_ge_cases 0 (length (st m))); [now rewrite get_upd_same|lia].
-  - right. destruct l as [|j w]; cbn [mstep].
+  - right. destruct l as [|j w|]; cbn [mstep]; [| |auto].
     + destruct (todo m) as [|sp rest]; auto.
       destruct (exec_step 0 (st m) sp) as [[s' k] c]. cbn [hs]. now right.
     + destruct (lookup j (hs m)) as [c|]; [destruct (do_write (st m) c w)|]; auto.
@@ -583,3 +583,48 @@ Proof.
   rewrite (nth_error_nth _ _ false NE) in Mi. cbn [pipe_cap_t] in Mi.
   rewrite pipeline_cap_spec in Mi. apply orb_false_iff in Mi. tauto.
 Qed.
+
+(* ---- the caller's context: ConsumeX never looks at it -------------------------------------------- *)
+Definition is_cancel (l : label) : bool := match l with LCancel => true | _ => false end.
+Definition not_cancel_ev (e : ev) : bool := match e with ECancel => false | _ => true end.
+(* the log without the "context ended" marks *)
+Definition strip (log : list ev) : list ev := filter not_cancel_ev log.
+Definition same_upto_ctx (m m' : mstate) : Prop :=
+  todo m = todo m' /\ st m = st m' /\ hs m = hs m' /\ strip (elog m) = strip (elog m').
+
+Lemma same_step nr m m' l :
+  same_upto_ctx m m' -> is_cancel l = false -> same_upto_ctx (mstep nr m l) (mstep nr m' l).
+Proof.
+  destruct m as [t s h e], m' as [t' s' h' e']. unfold same_upto_ctx. cbn [todo st hs elog].
+  intros (<- & <- & <- & D) NC. destruct l as [|i w|]; [| |discriminate]; cbn [mstep todo st hs elog].
+  - destruct t as [|sp rest]; [cbn [todo st hs elog]; auto|].
+    destruct (exec_step nr s sp) as [[s1 i] c]. cbn [todo st hs elog]. repeat split; auto.
+    cbn [strip filter not_cancel_ev]. unfold strip in D. now rewrite D.
+  - destruct (lookup i h) as [c|]; [destruct (do_write s c w) as [s1 r]|];
+      cbn [todo st hs elog]; repeat split; auto; cbn [strip filter not_cancel_ev]; unfold strip in D; now rewrite D.
+Qed.
+
+Lemma same_cancel nr m m' : same_upto_ctx m m' -> same_upto_ctx (mstep nr m LCancel) m'.
+Proof. intros (A & B & C & D). repeat split; auto. Qed.
+
+Lemma context_irrelevant_fold nr ls : forall m m',
+  same_upto_ctx m m' ->
+  same_upto_ctx (fold_left (mstep nr) ls m) (fold_left (mstep nr) (filter (fun l => negb (is_cancel l)) ls) m').
+Proof.
+  induction ls as [|l ls IH]; intros m m' S; simpl; auto.
+  destruct (is_cancel l) eqn:E; simpl.
+  - destruct l; try discriminate. apply IH. now apply same_cancel.
+  - apply IH. now apply same_step.
+Qed.
+
+Lemma context_irrelevant_l caps ro_in c0 ls :
+  same_upto_ctx (run (new_fan caps) ro_in c0 ls)
+                (run (new_fan caps) ro_in c0 (filter (fun l => negb (is_cancel l)) ls)).
+Proof. unfold run. apply context_irrelevant_fold. repeat split; auto. Qed.
+
+(* a consumer is handed the caller's context: it finds it done iff the context ended earlier in the schedule;
+   and the calls made do not depend on it *)
+Lemma calls_ignore_cancel_l caps ro_in c0 ls :
+  calls_of (elog (run (new_fan caps) ro_in c0 ls)) =
+  calls_of (elog (run (new_fan caps) ro_in c0 (filter (fun l => negb (is_cancel l)) ls))).
+Proof. now rewrite !calls_prefix_l; unfold ncalls; f_equal; induction ls as [|[| |] ls IH]; simpl; auto; f_equal. Qed.
